@@ -57,7 +57,7 @@ Proof. vm_compute. reflexivity. Qed.
 
 (* ------------------------------------------------------------------ footnotes *)
 From Coq Require Import Permutation Sorted.
-From V Require Import Model.Footnotes Spec.FootnoteSpec Proofs.FootnoteProofs.
+From V Require Import Model.Footnotes Spec.FootnoteSpec Proofs.FootnoteProofs Proofs.FootnoteOrder.
 
 (* sort_perm_indep: the tree returned by process does not depend on the order in which the HashMap's
    into_values() yields its entries (any two orders that are permutations of the entries) *)
@@ -90,6 +90,33 @@ Theorem C15_appended_order_sorted : forall (perm : list fdef -> list fdef) m,
   StronglySorted (fun a b => ix_le (f_ix a) (f_ix b) = true) (filter has_ix (sort_by_ix (perm m))).
 Proof. exact appended_order_sorted. Qed.
 Print Assumptions C15_appended_order_sorted.
+
+(* "footnotes are numbered 1..n in order of first reference": in the tree left by the reference walk
+   (find_footnote_references, started from the collected map and counter 0) the numbers carried by the
+   reference nodes, read in document order, pass fs_ok from 0 — each is a number already issued or the
+   next new one — and the walk's final counter is the number of distinct numbers; in the Spec's
+   vocabulary, the first occurrences are exactly 1, 2, .., ix.  For every tree whose reference nodes are
+   leaves (refs_leaf), every fold / preserve. *)
+Theorem C15_numbered_in_order_of_first_reference : forall (fold pres : bytes -> bytes) root,
+  refs_leaf root = true ->
+  let r := refs fold pres root (collect fold pres (top_defs root) 0 [], 0%N) in
+  fs_ok 0 (ref_ixs (fst r)) = Some (snd (snd r)).
+Proof. exact refs_numbered_in_order. Qed.
+Print Assumptions C15_numbered_in_order_of_first_reference.
+
+Theorem C15_first_seen_is_1_to_n : forall (fold pres : bytes -> bytes) root,
+  refs_leaf root = true ->
+  let r := refs fold pres root (collect fold pres (top_defs root) 0 [], 0%N) in
+  first_seen [] (ref_ixs (fst r)) = nseq 1 (N.to_nat (snd (snd r))).
+Proof. exact refs_first_seen. Qed.
+Print Assumptions C15_first_seen_is_1_to_n.
+
+(* non-vacuity: references b, a, b with both labels defined are numbered 1, 2, 1 and the counter ends at 2 *)
+Example C15_numbered_in_order_example :
+  refs_leaf w_order = true /\
+  ref_ixs (fst (refs idb idb w_order (collect idb idb (top_defs w_order) 0 [], 0%N))) = [1; 2; 1]%N /\
+  snd (snd (refs idb idb w_order (collect idb idb (top_defs w_order) 0 [], 0%N))) = 2%N.
+Proof. exact w_order_example. Qed.
 
 (* NOT proved (kept visible; evaluated on every real final tree and every model result by the check):
    every reference left in the tree carries the number and name of exactly one appended definition,
